@@ -56,7 +56,9 @@ func plainChildHistories(r *ev.Run) {
 		return f
 	}
 	set := func(n string) func(p protoreflect.Message, c proto.Message) {
-		return func(p protoreflect.Message, c proto.Message) { p.Set(fd(p, n), protoreflect.ValueOfMessage(c.ProtoReflect())) }
+		return func(p protoreflect.Message, c proto.Message) {
+			p.Set(fd(p, n), protoreflect.ValueOfMessage(c.ProtoReflect()))
+		}
 	}
 	positions := []position{
 		{"Holder", "Timestamp", "Holder.ts", set("ts")},
